@@ -74,6 +74,23 @@ func SpecPrelude(p *Program, u *Universe) (text string, axiomNames []string, err
 		if body.Sort != rs {
 			return "", nil, fmt.Errorf("%s: body of %s has sort %s, declared %s", sf.Src, name, body.Sort, rs)
 		}
+		if sf.Opaque {
+			fmt.Fprintf(&b, "(declare-fun f.%s (%s) %s)\n", name, strings.Join(ps, " "), rs)
+			u.RelaxDef[fmt.Sprintf("(declare-fun f.%s (%s) %s)", name, strings.Join(ps, " "), rs)] =
+				fmt.Sprintf("(define-fun f.%s (%s) %s %s)", name, strings.Join(pdecl, " "), rs, body.T)
+			var args []string
+			for _, prm := range sf.Params {
+				args = append(args, "x!"+prm.Name)
+			}
+			app := "(f." + name + " " + strings.Join(args, " ") + ")"
+			if len(args) == 0 {
+				app = "f." + name
+				u.Reveal[name] = fmt.Sprintf("(assert (= %s %s))\n", app, body.T)
+			} else {
+				u.Reveal[name] = fmt.Sprintf("(assert (forall (%s) (! (= %s %s) :pattern (%s))))\n", strings.Join(pdecl, " "), app, body.T, app)
+			}
+			continue
+		}
 		kw := "define-fun"
 		if strings.Contains(body.T, "(f."+name+" ") {
 			kw = "define-fun-rec"
@@ -91,15 +108,23 @@ func SpecPrelude(p *Program, u *Universe) (text string, axiomNames []string, err
 	for _, d := range g.decls {
 		pre.WriteString(d + "\n")
 	}
+	for n := range g.declared {
+		u.preDeclared[n] = true
+	}
+	pre.WriteString(strings.Join(g.asserts, "\n") + "\n")
 	sort.Strings(axiomNames)
 	return pre.String() + b.String(), axiomNames, nil
 }
 
 // RelaxPrelude drops quantified assertions from a prelude and interprets the
 // helper function loc directly, for quantifier-free candidate-model queries.
-func RelaxPrelude(prelude string) string {
+func RelaxPrelude(prelude string, defs map[string]string) string {
 	var b strings.Builder
 	for _, line := range strings.Split(prelude, "\n") {
+		if d, ok := defs[line]; ok {
+			b.WriteString(d + "\n")
+			continue
+		}
 		if strings.HasPrefix(line, "(declare-fun loc ") {
 			b.WriteString("(define-fun loc ((o Int) (i Int)) Int (+ o i))\n")
 			continue
@@ -130,6 +155,9 @@ func LemmaObligations(p *Program, u *Universe) (obls []*Obligation, err error) {
 		var b strings.Builder
 		for _, d := range g.decls {
 			b.WriteString(d + "\n")
+		}
+		for _, a := range g.asserts {
+			b.WriteString(a + "\n")
 		}
 		fmt.Fprintf(&b, "(assert (not %s))\n", t)
 		pk := p.Specs.ClausePkg[l]
